@@ -6,16 +6,22 @@ package validation
 // Validators return an error list; "accepted" means the list is empty.
 
 //@ func ValidateGT
+//@   params value, minimum, fldPath
 //@   ensures [C14,C17] (len(result) == 0) == (value > minimum)
 //@ func ValidateGTE
+//@   params value, minimum, fldPath
 //@   ensures [C17] (len(result) == 0) == (value >= minimum)
 //@ func ValidateLTE
+//@   params value, maximum, fldPath
 //@   ensures [C17] (len(result) == 0) == (value <= maximum)
 //@ func ValidateLT
+//@   params value, maximum, fldPath
 //@   ensures [C17] (len(result) == 0) == (value < maximum)
 //@ func ValidateMaxLength
+//@   params val, maxLen, fldPath
 //@   ensures [C17] (len(result) == 0) == (len(val) <= maxLen)
 
 // immutability (C17): semEq is apiequality.Semantic.DeepEqual, ASSUMED an equivalence (see fvc/lib/k8s.spec)
 //@ func ValidateImmutableField
+//@   params newVal, oldVal, fldPath, msg
 //@   ensures [C17] (len(result) == 0) == semEq(oldVal, newVal)
